@@ -316,7 +316,7 @@ def generate(ctx):
     # ---- signing
     cases = [(d, ctx.rbytes(32), ctx.rbytes(32)) for d in SECRETS]
     cases += [(3, bytes(32), bytes(32)), (N - 1, b"\xff" * 32, b"\xff" * 32)]
-    cases += [(rscalar(r), ctx.rbytes(32), ctx.rbytes(32)) for _ in range(ctx.n(30, 500))]
+    cases += [(rscalar(r), ctx.rbytes(32), ctx.rbytes(32)) for _ in range(ctx.n(14, 500))]
     signed = []
     for d, m, a in cases:
         yield ("corr", "sign_schnorr", [d, m, a])
@@ -343,8 +343,8 @@ def generate(ctx):
     nsig = ctx.n(3, 12)
     nfull = 0 if ctx.tier == "quick" else max(1, int(4 * ctx.scale))     # signatures with all 512 single-bit flips
     for i, (d, pk, m, sig) in enumerate(signed[:: max(1, len(signed) // nsig)][:nsig]):
-        nflips = 512 if i < nfull else 24
-        ctx.label("verify/all-512-flips" if i < nfull else "verify/24-sampled-flips")
+        nflips = 512 if i < nfull else (16 if ctx.tier == "quick" else 24)
+        ctx.label("verify/all-512-flips" if i < nfull else "verify/sampled-flips")
         for name, (pk2, m2, sig2) in sig_mutations(r, d, pk, m, sig, nflips):
             ctx.label("verify/" + name)
             yield ("corr", "verify_schnorr", [pk2, m2, sig2])
